@@ -1,6 +1,7 @@
 package main
 
 import (
+	"go/types"
 	"go/token"
 	"fmt"
 	"sort"
@@ -20,8 +21,9 @@ func init() {
 			"(R2 siblings) every filter type whose decoder reads the Predictor parameter reaches the row post-processing (processRow); reading it only to reject it turns every predictor stream of that filter — allowed by the standard for LZWDecode as for FlateDecode — into an error. " +
 			"(R3 TABLE) processRow's switch over the PNG filter-type byte has exactly the cases 0..4 and an error default. " +
 			"(R4 normal form) the three results of predictorRowParams are, as polynomials over (colors, bpc, columns) with floor divisions as atoms and the module's checked-arithmetic helpers read as their operation, bytesPerPixel = floor((bpc*colors+7)/8), rowSize = floor((bpc*colors*columns+7)/8), rowLen = rowSize or rowSize+1 (nothing is evaluated; equal normal forms compute equal functions). (R5 dominance) no row leaves processRow successfully unless the p == PredictorTIFF test or a branch on the row's first byte dominates the return: the /Predictor value does not name the filter of a PNG row. " +
+			"(R6 TABLE) the comparisons between the three Paeth distances (identified as results of abs by the shape of their argument) cut exactly at pa<=pb, pa<=pc, pb<=pc in filterPaeth and paeth; (R7 flow) in decodePostProcessRows the loop-carried row buffers never receive themselves on a back edge. " +
 			"Both R1 and R2 are violated on the pinned tree; the repairs are feature work (sub-byte and 16-bit differencing, predictor support for LZW), so they are recorded as known findings with demonstrations. NOT decided: the arithmetic of the PNG filters and of differencing itself (value-level).",
-		Rules:       []string{"C17.R1 dependency: TIFF differencing receives the sample width", "C17.R2 siblings: a decoder that reads Predictor applies it", "C17.R3 TABLE: PNG filter types 0..4", "C17.R4 normal form: row size, row length and bytes per pixel are the formulas of RFC 2083 / TIFF 6.0 as polynomials with floor divisions", "C17.R5 dominance: every successful return of processRow is behind the TIFF test or behind the dispatch on the row's filter byte"},
+		Rules:       []string{"C17.R1 dependency: TIFF differencing receives the sample width", "C17.R2 siblings: a decoder that reads Predictor applies it", "C17.R3 TABLE: PNG filter types 0..4", "C17.R4 normal form: row size, row length and bytes per pixel are the formulas of RFC 2083 / TIFF 6.0 as polynomials with floor divisions", "C17.R5 dominance: every successful return of processRow is behind the TIFF test or behind the dispatch on the row's filter byte", "C17.R6 TABLE: the Paeth predictor's three distance comparisons cut at pa<=pb, pa<=pc, pb<=pc", "C17.R7 flow: the previous-row buffer is replaced on every back edge of the row loop"},
 		Assumptions: []string{"decode parameters are read through constant keys of the parms map"},
 		Level:       "other",
 		Technique:   "interprocedural taint from a parameter lookup to a call site; sibling reachability over the pkg/filter call graph; switch-case table",
@@ -126,6 +128,10 @@ func runC17(c *Ctx) {
 	r.MinInst["C17.R5"] = 2
 	checkRowGeometry(c)
 	checkRowFilterDispatch(c)
+	r.MinInst["C17.R6"] = 1
+	r.MinInst["C17.R7"] = 2
+	checkPaethCuts(c)
+	checkPriorRowAdvances(c)
 	// ---- R1
 	var seeds []ssa.Value
 	for _, fn := range p.Funcs {
@@ -440,3 +446,164 @@ func checkRowFilterDispatch(c *Ctx) {
 }
 
 func isIntConst(v ssa.Value, k int64) bool { n, ok := c31ConstInt(v); return ok && n == k }
+
+// ---------------- C17.R6 / R7 (round 4 seeds C17-C, C17-D) ----------------
+
+// R6 (TABLE): the Paeth predictor picks a (left), then b (above), then c (upper left), "in that order" on ties
+// (RFC 2083 §6.6): the three comparisons between the distances are pa <= pb, pa <= pc, pb <= pc. Each comparison
+// between two distance values (results of abs: pc = abs(x + y); pa = abs(above - c), above being read from the prior
+// row or the second parameter; pb the other) is normalised to the pair it separates with ties on the left
+// (x <= y ≡ !(x > y); x < y ≡ !(y <= x), which is the cut y <= x) and the set must be exactly those three.
+func checkPaethCuts(c *Ctx) {
+	p, r := c.P, c.R
+	n := 0
+	for _, fid := range []string{"pkg/filter.filterPaeth", "pkg/filter.paeth"} {
+		fn := p.Func(fid)
+		if fn == nil {
+			if fid == "pkg/filter.filterPaeth" {
+				r.Bad("C17.R6", fid, "anchor", "", "UNRESOLVED-ANCHOR")
+			}
+			continue
+		}
+		// "above": the prior row (filterPaeth: loads from the 2nd parameter) or paeth's parameter b
+		isAbove := func(v ssa.Value) bool {
+			for _, l := range valueLeaves(v) {
+				for {
+					if cv, ok := l.(*ssa.Convert); ok {
+						l = cv.X
+						continue
+					}
+					break
+				}
+				switch x := l.(type) {
+				case *ssa.Parameter:
+					if fn.Name() == "paeth" && len(fn.Params) == 3 && x == fn.Params[1] {
+						return true
+					}
+				case *ssa.UnOp:
+					if ia, ok := x.X.(*ssa.IndexAddr); ok && x.Op == token.MUL && len(fn.Params) >= 2 && ia.X == ssa.Value(fn.Params[1]) {
+						return true
+					}
+				}
+			}
+			return false
+		}
+		name := map[ssa.Value]string{}
+		eachInstr(fn, func(_ *ssa.BasicBlock, _ int, i ssa.Instruction) {
+			call, ok := i.(*ssa.Call)
+			if !ok {
+				return
+			}
+			if f := staticCallee(call); f == nil || f.Name() != "abs" || len(call.Call.Args) != 1 {
+				return
+			}
+			arg, ok := call.Call.Args[0].(*ssa.BinOp)
+			if !ok {
+				return
+			}
+			switch {
+			case arg.Op == token.ADD:
+				name[call] = "pc"
+			case arg.Op == token.SUB && isAbove(arg.X):
+				name[call] = "pa"
+			case arg.Op == token.SUB:
+				name[call] = "pb"
+			}
+		})
+		if len(name) != 3 {
+			r.Bad("C17.R6", fid, "distances", p.Pos(fn.Pos()), fmt.Sprintf("UNDECIDED: expected the three distances as results of abs (sum, above - upper left, left - upper left), found %d", len(name)))
+			continue
+		}
+		cuts := map[string]token.Pos{}
+		eachInstr(fn, func(_ *ssa.BasicBlock, _ int, i ssa.Instruction) {
+			bo, ok := i.(*ssa.BinOp)
+			if !ok || name[bo.X] == "" || name[bo.Y] == "" {
+				return
+			}
+			x, y := name[bo.X], name[bo.Y]
+			switch bo.Op {
+			case token.LEQ, token.GTR: // x <= y | x > y
+				cuts[x+"<="+y] = bo.Pos()
+			case token.LSS, token.GEQ: // x < y | x >= y  = the cut y <= x
+				cuts[y+"<="+x] = bo.Pos()
+			}
+		})
+		want := []string{"pa<=pb", "pa<=pc", "pb<=pc"}
+		var got []string
+		for k := range cuts {
+			got = append(got, k)
+		}
+		sort.Strings(got)
+		n++
+		if strings.Join(got, ",") == strings.Join(want, ",") {
+			r.OK("C17.R6", fid, "tie order of the Paeth predictor", p.Pos(fn.Pos()), "comparisons cut at "+strings.Join(got, ", ")+": ties go to left, then above", true)
+		} else {
+			r.Bad("C17.R6", fid, "tie order of the Paeth predictor", p.Pos(fn.Pos()), "the distance comparisons cut at {"+strings.Join(got, ", ")+"}, RFC 2083 has {"+strings.Join(want, ", ")+"} (ties go to left, then above, then upper left): rows with the Paeth filter that contain a tie decode to other bytes, and the error spreads to the right and down")
+		}
+	}
+	_ = n
+}
+
+// R7: Up, Average and Paeth need the previous row as decoded. In the row loop of flate.decodePostProcessRows the two
+// row buffers are loop-carried values (φ at the loop head); on every back edge the "previous row" φ must receive a
+// new value (the row just processed), never itself: an iteration that goes round without the exchange (a fast path
+// with continue) leaves a stale previous row for the rows that follow.
+func checkPriorRowAdvances(c *Ctx) {
+	p, r := c.P, c.R
+	const fid = "pkg/filter.(flate).decodePostProcessRows"
+	fn := p.Func(fid)
+	if fn == nil {
+		r.Bad("C17.R7", fid, "anchor", "", "UNRESOLVED-ANCHOR")
+		return
+	}
+	isBytes := func(t types.Type) bool {
+		s, ok := t.Underlying().(*types.Slice)
+		if !ok {
+			return false
+		}
+		b, ok := s.Elem().Underlying().(*types.Basic)
+		return ok && b.Kind() == types.Uint8
+	}
+	n := 0
+	for _, l := range naturalLoops(fn) {
+		// the row loop reads into a row buffer
+		reads := false
+		for b := range l.blocks {
+			for _, in := range b.Instrs {
+				if call, ok := in.(*ssa.Call); ok {
+					if _, ref := callRef(call); ref == "io.ReadFull" || ref == "io.ReadAtLeast" {
+						reads = true
+					}
+				}
+			}
+		}
+		if !reads {
+			continue
+		}
+		for _, in := range l.header.Instrs {
+			ph, ok := in.(*ssa.Phi)
+			if !ok {
+				break
+			}
+			if !isBytes(ph.Type()) {
+				continue
+			}
+			n++
+			construct := "row buffer " + ph.Comment
+			stale := false
+			for ei, e := range ph.Edges {
+				if l.blocks[l.header.Preds[ei]] && e == ssa.Value(ph) {
+					stale = true
+				}
+			}
+			if stale {
+				r.Bad("C17.R7", fid, construct, p.Pos(ph.Pos()), "an iteration of the row loop can go round without exchanging the row buffers: the next row's Up/Average/Paeth filter is undone against a row that is not the previous one (a None row followed by an Up row decodes wrongly)")
+			} else {
+				r.OK("C17.R7", fid, construct, p.Pos(ph.Pos()), "on every back edge the buffer variable receives the other buffer", true)
+			}
+		}
+	}
+	if n == 0 {
+		r.Bad("C17.R7", fid, "row buffers", p.Pos(fn.Pos()), "UNDECIDED: no loop-carried row buffers in a loop that reads rows")
+	}
+}
